@@ -205,6 +205,67 @@ def gen_random(rng, fn):
     return {"fn": fn, "circuit": d, "k": rng.choice([2, 2, 3, 3, 4, 5]), "tags": ["random"]}
 
 
+def gen_with_bb(rng, fn):
+    """limit_* on a circuit that contains a flip-flop blackbox (registry must come back unchanged, pins stay wired)"""
+    k = rng.choice([2, 2, 3])
+    if fn == "limit_fanin":
+        case = gen_fanin_struct(rng, rng.choice(MULTI), k, rng.choice([k + 1, k + 2]))
+    else:
+        case = gen_fanout_struct(rng, rng.choice(SRC_TYPES), k, rng.choice([k + 1, k + 2]))
+    d = case["circuit"]
+    cand = [n[0] for n in d["nodes"] if "." not in n[0]]
+    d = lib.add_flop(rng, d, inst=rng.choice(["ff0", "u1"]), on=rng.choice(cand), clk=rng.choice(["clk", "ck"]))
+    case["circuit"] = _check_unique(d)
+    case["tags"] = [t for t in case["tags"] if t != "struct"] + ["bb"]
+    return case
+
+
+def gen_twice(rng, fn):
+    """the function applied to its own result with a smaller k: helper names of the first call are taken when the second runs"""
+    k1 = rng.choice([3, 4])
+    if fn == "limit_fanin":
+        case = gen_fanin_struct(rng, rng.choice(MULTI), k1, rng.choice([2 * k1 + 1, k1 + 2]))
+    else:
+        case = gen_fanout_struct(rng, rng.choice(SRC_TYPES), k1, rng.choice([2 * k1 + 1, k1 + 2]))
+    case["k1"] = k1
+    case["k"] = 2
+    case["tags"] = [t for t in case["tags"] if t != "struct"] + ["twice"]
+    return case
+
+
+def gen_kinds(rng, fn):
+    """k given as a bool (True == 1 and False == 0 are below the limit) or much larger than any fan-in"""
+    d = lib.rand_dag(rng, 3, 4, max_fanin=4)
+    return {"fn": fn, "circuit": d, "k": rng.choice([True, False, 1000, 64]), "tags": ["k-kind"]}
+
+
+REG_VARIANTS = ["ports", "two-other", "suffix", "key-ne-value", "extra-output"]
+
+
+def gen_regs_args(rng):
+    """insert_registers with a non-default flop, port names, other_flop_io and suffix"""
+    v = rng.choice(REG_VARIANTS)
+    small = v == "extra-output"
+    d = lib.rand_dag(rng, rng.randint(2, 3), rng.randint(3, 4 if small else 7), max_fanin=3, p_const=0.1, types=lib.GATES)
+    args = {"ff": ["ff", ["clk", "d"], ["q"]], "d": "d", "q": "q", "other": [["clk", "clk"]], "suffix": "_cg_insert_reg_q_"}
+    if v == "ports":
+        args.update(ff=["dff", ["ck", "D"], ["Q"]], d="D", q="Q", other=[["ck", "ck"]])
+    elif v == "two-other":
+        args.update(ff=["dffr", ["clk", "d", "rst"], ["q"]], other=[["clk", "clk"], ["rst", "rst"]])
+        if rng.random() < 0.5:
+            _rename(d, rng.choice([n[0] for n in d["nodes"] if n[1] == "input"]), "rst")
+    elif v == "suffix":
+        args.update(suffix=rng.choice(["_q_", "_r", "__reg"]))
+    elif v == "key-ne-value":
+        # the key is added as an input and names the port, the value is the node wired to it
+        _rename(d, rng.choice([n[0] for n in d["nodes"] if n[1] == "input"]), "clock")
+        args.update(ff=["dff", ["ck", "d"], ["q"]], other=[["ck", "clock"]])
+    else:
+        args.update(ff=["dffn", ["clk", "d"], ["q", "qn"]])
+    return {"fn": "insert_registers_args", "circuit": _check_unique(d), "stages": rng.choice([1, 1, 2] if not small else [2, 3]),
+            "args": args, "tags": [v]}
+
+
 def gen_reject(rng, fn):
     d = lib.rand_dag(rng, 2, 3, max_fanin=3)
     return {"fn": fn, "circuit": d, "k": rng.choice([0, 1]), "tags": ["k<2"]}
@@ -250,6 +311,10 @@ def generate(rng, tier):
     n = 40 if tier == "quick" else 250
     out += [gen_random(rng, "limit_fanin") for _ in range(n)] + [gen_random(rng, "limit_fanout") for _ in range(n)]
     out += [gen_cyclic(rng, fn) for fn in ("limit_fanin", "limit_fanout") for _ in range(10 if tier == "quick" else 60)]
+    m = 6 if tier == "quick" else 50
+    for fn in ("limit_fanin", "limit_fanout"):
+        out += [gen_with_bb(rng, fn) for _ in range(m)] + [gen_twice(rng, fn) for _ in range(m)] + [gen_kinds(rng, fn) for _ in range(m // 2)]
+    out += [gen_regs_args(rng) for _ in range(15 if tier == "quick" else 120)]
     out += [gen_reject(rng, rng.choice(["limit_fanin", "limit_fanout"])) for _ in range(4 if tier == "quick" else 12)]
     out += [gen_regs(rng) for _ in range(60 if tier == "quick" else 300)]
     out += [gen_unroll(rng) for _ in range(30 if tier == "quick" else 120)]
@@ -307,9 +372,13 @@ def _steps_fanout(c0_nodes, r):
 def impl(case):
     import circuitgraph as cg
     c = lib.build_circuit(case["circuit"])
-    before = lib.dump_circuit(c)
     fn = case["fn"]
     obs = {}
+    if "k1" in case:
+        # first application; the case proper is the second one, on the returned circuit
+        c = (cg.tx.limit_fanin if fn == "limit_fanin" else cg.tx.limit_fanout)(c, case["k1"])
+        obs["mid"] = lib.dump_circuit(c)
+    before = lib.dump_circuit(c)
     try:
         if fn == "limit_fanin":
             r = cg.tx.limit_fanin(c, case["k"])
@@ -320,6 +389,17 @@ def impl(case):
         elif fn == "insert_registers":
             obs["order"] = list(c.graph.nodes)
             r = cg.tx.insert_registers(c, case["stages"])
+        elif fn == "insert_registers_args":
+            a = case["args"]
+            ff = cg.BlackBox(a["ff"][0], a["ff"][1], a["ff"][2])
+            obs["order"] = list(c.graph.nodes)
+            obs["ins"] = list(ff.inputs())
+            obs["outs"] = list(ff.outputs())
+            other = {k: v for k, v in a["other"]}
+            other_before = dict(other)
+            r = cg.tx.insert_registers(c, case["stages"], ff=ff, d_port=a["d"], q_port=a["q"], other_flop_io=other, q_suffix=a["suffix"])
+            if other != other_before:
+                obs["argument_mutated"] = True
         elif fn == "acyclic_unroll":
             r = cg.tx.acyclic_unroll(c)
         else:
@@ -345,13 +425,22 @@ def csteps(steps):
     return cl("(%s,%s,%s)" % (cs(a), cs(b), cs(c)) for a, b, c in steps)
 
 
+def cargs(a, obs):
+    ff = "(mk_bb %s %s %s)" % (cs(a["ff"][0]), csl(a["ff"][1]), csl(a["ff"][2]))
+    other = cl("(%s,%s)" % (cs(k), cs(v)) for k, v in a["other"])
+    return "{| ra_ff := %s; ra_ins := %s; ra_outs := %s; ra_d := %s; ra_q := %s; ra_other := %s; ra_suffix := %s |}" % (
+        ff, csl(obs.get("ins", a["ff"][1])), csl(obs.get("outs", a["ff"][2])), cs(a["d"]), cs(a["q"]), other, cs(a["suffix"]))
+
+
 def to_coq(case, obs):
     fn = case["fn"]
-    C = ccirc(case["circuit"])
+    C = ccirc(obs["mid"] if "mid" in obs else case["circuit"])
+    if fn == "insert_registers_args":
+        return f"CRegsG {C} {cnat(case['stages'])} {csl(obs.get('order', []))} {cargs(case['args'], obs)} {cres(obs)}"
     if fn == "limit_fanin":
-        return f"CFanin {C} {cnat(case['k'])} {csteps(obs.get('steps', []))} {cres(obs)}"
+        return f"CFanin {C} {cnat(int(case['k']))} {csteps(obs.get('steps', []))} {cres(obs)}"
     if fn == "limit_fanout":
-        return f"CFanout {C} {cnat(case['k'])} {csteps(obs.get('steps', []))} {cres(obs)}"
+        return f"CFanout {C} {cnat(int(case['k']))} {csteps(obs.get('steps', []))} {cres(obs)}"
     if fn == "insert_registers":
         return f"CRegs {C} {cnat(case['stages'])} {csl(obs.get('order', []))} {cres(obs)}"
     return f"CUnroll {C} {cres(obs)}"
@@ -360,10 +449,10 @@ def to_coq(case, obs):
 def nontrivial(case, obs):
     fn = case["fn"]
     if "out" not in obs:
-        return fn.startswith("limit_") and case["k"] < 2
+        return fn.startswith("limit_") and int(case["k"]) < 2
     if fn.startswith("limit_"):
         return len(obs.get("steps", [])) >= 1
-    if fn == "insert_registers":
+    if fn in ("insert_registers", "insert_registers_args"):
         return len(obs["out"]["bbs"]) >= 1
     return len(obs["out"]["nodes"]) >= 4
 
@@ -372,13 +461,13 @@ def classify(case, obs):
     fn = case["fn"]
     out = [fn + (":exc:" + obs.get("exc", "?") if "out" not in obs else "")]
     if fn.startswith("limit_"):
-        out.append(f"{fn}:k={case['k']}")
+        out.append(f"{fn}:k={case['k']!r}")
         out.append(f"{fn}:steps={min(len(obs.get('steps', [])), 6)}")
         tags = case.get("tags", [])
         if "struct" in tags:
             out.append(f"{fn}:{tags[1]}:{tags[2]}")
-        out += [f"{fn}:{t}" for t in tags if t in ("clash0", "clash0_0", "clash1", "second", "random", "k<2", "cyclic")]
-    elif fn == "insert_registers":
+        out += [f"{fn}:{t}" for t in tags if t in ("clash0", "clash0_0", "clash1", "second", "random", "k<2", "cyclic", "bb", "twice", "k-kind")]
+    elif fn in ("insert_registers", "insert_registers_args"):
         out.append(f"{fn}:stages={case['stages']}")
         if "out" in obs:
             out.append(f"{fn}:flops={min(len(obs['out']['bbs']), 6)}")
@@ -392,6 +481,8 @@ def finding_signature(case, obs):
 
 def mutate_case(rng, case):
     fn = case["fn"]
+    if fn == "insert_registers_args":
+        return gen_regs_args(rng)
     if fn == "limit_fanin":
         return gen_fanin_struct(rng, rng.choice(MULTI), rng.randint(2, 4), rng.randint(2, 7)) if rng.random() < 0.5 else gen_random(rng, fn)
     if fn == "limit_fanout":
